@@ -324,6 +324,83 @@ def emit_lexers(hdr, kb, contracts, prop):
         kb.emit_function(csig, sl, rules, c.fn, c.loops, cname, pre=pre, ghost=c.ghost)
 
 
+
+# ------------------------------------------------------------------ K3 parse_internal
+
+def emit_position_ctor(hdr, kb, contracts, prop):
+    from gate import init_list_to_assignments
+    psl = hdr.slice_block("struct Position")
+    sl = hdr.slice_function("constexpr Position(const char *t_pos, const char *t_end) noexcept", after=psl.ob)
+    if sl.body.strip():
+        raise ExtractionBreak("Position(const char*, const char*) body no longer empty")
+    init = init_list_to_assignments(sl.sig_tail)
+    c = chai2c.contracts_for(contracts, "Position_ctor", prop)
+    kb.emit_function("void Position_ctor(Position *self, const char *t_pos, const char *t_end)", sl, base_rules(), c.fn, c.loops,
+                     "Position_ctor", pre=lambda b: init)
+
+
+def parse_internal_rules():
+    r = base_rules()
+    mf = dict(min_fire=1)
+    r.add("R9.pi.begin", r"const auto begin = t_input\.empty\(\) \? NULL : &t_input\.front\(\);", "const char *begin = (g_len == 0) ? NULL : &g_buf[0];", **mf)
+    r.add("R9.pi.end", r"const auto end = begin == NULL \? NULL : begin \+ t_input\.size\(\);", "const char *end = begin == NULL ? NULL : begin + g_len;", **mf)
+    r.add("R9.pi.pos", r"\bm_position = Position\(begin, end\);", "Position_ctor(&m_position, begin, end);", **mf)
+    r.add("R9.pi.fname", r"\bm_filename = std::make_shared<std::string>\(std::move\(t_fname\)\);", "/* m_filename: not in this kernel */", **mf)
+    r.add("R9.pi.shebang", r"\(t_input\.size\(\) > 1\) && \(t_input\[0\] == '#'\) && \(t_input\[1\] == '!'\)", "(g_len > 1) && (g_buf[0] == '#') && (g_buf[1] == '!')", **mf)
+    r.add("R4.pi.statements", r"(?<![\w.>])Statements\(true\)", "Parser_Statements(self, true)", **mf)
+    r.add("R9.pi.build", r"\bbuild_match<eval::File_AST_Node<Tracer>>\(0\);", "verif_build_match(self, 0);", **mf)
+    r.add("R9.pi.noop", r"\bm_match_stack\.push_back\(chaiscript::make_unique<eval::AST_Node_Impl<Tracer>, eval::Noop_AST_Node<Tracer>>\(\)\);", "vvec_emplace_back(&m_match_stack);", **mf)
+    r.add("R9.pi.front", r"\bAST_NodePtr retval\(std::move\(m_match_stack\.front\(\)\)\);", "VERIF_STD_PRE(m_match_stack.size > 0, \"vector::front on an empty vector\");", **mf)
+    r.add("R9.pi.clear", r"\bm_match_stack\.clear\(\);", "vvec_clear(&m_match_stack);", **mf)
+    r.add("R9.pi.ret", r"\breturn retval;", "return;", **mf)
+    r.extend(lexer_rules([]))
+    r.add("R1.member2", r"(?<![\w.>])(m_match_stack)\b", r"self->\1")
+    return r
+
+
+def emit_parse_internal(hdr, kb, contracts, prop):
+    thr = throw_rule(KINDMAP, HDR)
+    c = chai2c.contracts_for(contracts, "Parser_Statements", prop)
+    kb.emit_stub("bool Parser_Statements(Parser *self, bool t_class_allowed)", c.fn, "Parser_Statements")
+    c = chai2c.contracts_for(contracts, "verif_build_match", prop)
+    kb.emit_stub("void verif_build_match(Parser *self, size_t t_match_start)", c.fn, "verif_build_match")
+    sl = hdr.slice_function("AST_NodePtr parse_internal(const std::string &t_input, std::string t_fname)")
+    c = chai2c.contracts_for(contracts, "Parser_parse_internal", prop)
+
+    def pre(b):
+        b2, n = thr(b, "Parser_parse_internal")
+        if n < 1:
+            raise ExtractionBreak("parse_internal: no 'Unparsed input' throw found")
+        return b2
+
+    kb.emit_function("void Parser_parse_internal(Parser *self)", sl, parse_internal_rules(), c.fn, c.loops, "Parser_parse_internal",
+                     pre=pre, ghost=c.ghost)
+    kb.add('void h_Parser_parse_internal(void) { Parser *p; Parser_parse_internal(p); VERIF_CANARY("parse_internal returns normally"); }')
+    t = Target("Parser_parse_internal", "h_Parser_parse_internal",
+               replace=["Parser_Statements", "verif_build_match", "Parser_Eol", "Position_inc"])
+    t.expect_loops = True
+    kb.targets.append(t)
+    kb.add('void h_Position_ctor(void) { Position *p; const char *a; const char *b; Position_ctor(p, a, b); VERIF_CANARY("returns"); }')
+    kb.targets.append(Target("Position_ctor", "h_Position_ctor"))
+    kb.functions.append("Parser_Statements / verif_build_match (assumed contracts: the grammar above the lexers)")
+
+
+def depth_counter_fact(hdr, kb):
+    """supporting static fact (scan): Depth_Counter is only ever used as a named automatic
+    object `Depth_Counter dc{this};` (a discarded temporary would count nothing), in at least as
+    many grammar functions as on the pinned tree."""
+    txt = chai2c.strip_comments(hdr.text)
+    uses = [m.start() for m in re.finditer(r"\bDepth_Counter\b", txt)]
+    good = len(re.findall(r"\bDepth_Counter dc\{this\};", txt))
+    dsl = hdr.slice_block("struct Depth_Counter")
+    inside = len([u for u in uses if dsl.start <= u <= dsl.cb])
+    other = len(uses) - good - inside
+    # every `bool X(...)` grammar function that calls another grammar function or SkipWS through
+    # a capitalised sibling must start with the guard: approximated by the count
+    kb.static_facts.append(("Depth_Counter_only_used_as_named_guard_object", other == 0 and good >= 40,
+                            "%d `Depth_Counter dc{this};` guards, %d other uses outside the struct definition" % (good, other)))
+
+
 # which callees are replaced by their contracts when a function is enforced (others are
 # tiny loop-free accessors that are proved on their own and inlined at call sites).
 REPLACED = {"Position_inc", "Position_dec", "Position_plus", "Position_pluseq", "Position_minus", "Position_minuseq",
@@ -506,7 +583,7 @@ def build(prop, tier="quick"):
     emit_position(hdr, kb, c1, prop)
     kb.add("/* R3 helper: dereference of a temporary cursor (`*(m_position + 1)`) */\n"
            "static inline char Position_peek(Position p) { return *Position_deref(&p); }")
-    kb.add("typedef struct Parser { Position m_position; size_t m_current_parse_depth; } Parser;")
+    kb.add("#include \"verif_stl.h\"\ntypedef struct Parser { Position m_position; size_t m_current_parse_depth; vvec m_match_stack; } Parser;")
     kb.add(alphabet_enum(hdr, kb))
     kb.add(parser_data(kb))
     emit_static_string(kb, c2, prop)
@@ -515,6 +592,11 @@ def build(prop, tier="quick"):
     emit_lexers(hdr, kb, c2, prop)
     position_targets(kb)
     lexer_targets(kb)
+    if prop == "C01":
+        c3 = load_contracts("K3_parse_internal.contracts")
+        emit_position_ctor(hdr, kb, c3, prop)
+        emit_parse_internal(hdr, kb, c3, prop)
+        depth_counter_fact(hdr, kb)
     kb.assumptions += [
         "A4: input buffers are shorter than 2^31-2 bytes (line/col int arithmetic is not overflow-checked)",
         "A5: std::tolower behaves as in the C locale (ASCII case fold)",
